@@ -74,9 +74,10 @@ def enumerate_queries(thorough):
     if thorough:
         bodies += [{'kind': 'Query', 'query': Q(S(True))}, {'kind': 'SetOperation', 'left': S(), 'right': {'kind': 'Query', 'query': Q(S(), 1)}},
                    {'kind': 'Query', 'query': Q({'kind': 'Query', 'query': Q(S(), 1)})}]
-    withs = [[], [Q(S())], [Q({'kind': 'Insert'})], [Q({'kind': 'Update'})], [Q(S()), Q({'kind': 'Insert'})]]
+    withs = [[], [Q(S())], [Q({'kind': 'Insert'})], [Q({'kind': 'Update'})], [Q(S()), Q({'kind': 'Insert'})],
+             [Q(S(), 1)], [Q(S(), 0, [Q({'kind': 'Insert'})])]]      # a CTE that locks rows; a CTE with its own data-modifying CTE
     if thorough:
-        withs += [[Q(S(), 1)], [Q(S(), 0, [Q({'kind': 'Insert'})])]]
+        withs += [[Q(S()), Q(S(), 1)], [Q(S(), 0, [Q(S(), 1)])], [Q({'kind': 'Query', 'query': Q(S(), 1)})]]
     out = []
     for b in bodies:
         for lk in (0, 1):
